@@ -331,11 +331,37 @@ def refs(node, name) -> list:
             if (isinstance(n, ast.Attribute) and n.attr == name) or (isinstance(n, ast.Name) and n.id == name and isinstance(n.ctx, ast.Load))]
 
 
+def _own_params(fn) -> list:
+    return fn.params[1:] if fn.kind in ("method", "classmethod") and fn.params else fn.params
+
+
+def _rebound(fn_node) -> set:
+    return {x.id for x in ast.walk(fn_node) if isinstance(x, ast.Name) and isinstance(x.ctx, (ast.Store, ast.Del))}
+
+
+def denotes_project_group(e, roots, roles) -> bool:
+    """alias-expanded `e` is the project group: `<file>[list(<file>)[0]]`, or a parameter that receives it at every call site"""
+    return is_project_group(e, roots) or (isinstance(e, ast.Name) and "project" in roles.get(e.id, ()))
+
+
+def denotes_kind_selector(e, fn, roles) -> bool:
+    """alias-expanded `e` is the container name chosen by the kind of entity, or a parameter that receives it at every call site"""
+    if is_kind_selector(e, fn):
+        return True
+    if isinstance(e, ast.Call) and len(e.args) == 1 and not e.keywords:
+        f = e.func
+        if (f.attr if isinstance(f, ast.Attribute) else getattr(f, "id", None)) == "format_type_string":
+            e = e.args[0]
+    return isinstance(e, ast.Name) and "kind" in roles.get(e.id, ())
+
+
 def reader_units(ctx) -> list:
-    """[(name, normalised FuncInfo, guarded_by_callers, handle parameters)] — the functions of the reader a rule looks into:
-    the H5Reader methods and the functions of its module.  Public ones in normalised form (private helpers expanded in
-    place, so a helper's lookups are judged in the context of each caller); a private helper on its own only when some
-    use of it could not be expanded — then with the parameters that receive a handle at some call site."""
+    """[(name, normalised FuncInfo, guarded_by_callers, handle parameters, parameter roles)] — the functions of the reader a
+    rule looks into: the H5Reader methods and the functions of its module, in normalised form (helpers expanded in place, so
+    a helper's lookups are judged in the context of each caller).  A private helper is looked at on its own only when some
+    use of it could not be expanded.  What a function's PARAMETERS stand for is taken from its call sites inside the reader:
+    the parameters that receive a handle, and — when every use in the project is a direct call from the reader and all of
+    them agree — the parameters that receive the project group ('project') / the container name chosen by kind ('kind')."""
     if "c19.units" in ctx.cache:
         return ctx.cache["c19.units"]
     p = ctx.p
@@ -345,15 +371,32 @@ def reader_units(ctx) -> list:
     cands.update(R.methods)
     own = {id(f.node) for f in cands.values()}
     helpers = {n: f for n, f in cands.items() if n.startswith("_") and not n.startswith("__")}
-    users: dict = {n: [] for n in helpers}
-    if helpers:
-        for f in p.all_functions():
-            for n, h in helpers.items():
-                if f.node is not h.node and n in f.module.source and refs(f.node, n):
-                    users[n].append(f)
+    def uses(f, n) -> list:
+        """references of function f to the reader's function n: `H5Reader.n` anywhere, `cls.n` / `self.n` inside the reader
+        class, the bare name inside the reader's module (another class' own `self.n` is not one)"""
+        out = []
+        for r in refs(f.node, n):
+            if isinstance(r, ast.Name):
+                if f.module is rmod and n in rmod.functions:
+                    out.append(r)
+            elif isinstance(r.value, ast.Name) and (r.value.id == R.name or (f.cls is R and r.value.id in ("self", "cls", f.self_name))):
+                if n in R.methods:
+                    out.append(r)
+            elif not isinstance(r.value, ast.Name) and n in R.methods and f.cls is not R:
+                out.append(r)  # reached through some other expression: counted (conservatively) as a use
+        return out
+
+    users: dict = {n: [] for n in cands}
+    for f in p.all_functions():
+        for n, h in cands.items():
+            if f.node is not h.node and n in f.module.source and uses(f, n):
+                users[n].append(f)
 
     def calls_of(u, n):
-        return [(r, next((c for c in ast.walk(u.node) if isinstance(c, ast.Call) and c.func is r), None)) for r in refs(u.node, n)]
+        return [(r, next((c for c in ast.walk(u.node) if isinstance(c, ast.Call) and c.func is r), None)) for r in uses(u, n)]
+
+    def unit_view(fn):
+        return ctx.view(fn)
 
     def call_sites_guarded(n, depth=0) -> bool:
         """every use of helper n is a direct call inside a guard region of its (reader) caller, or of that caller's callers"""
@@ -373,32 +416,66 @@ def reader_units(ctx) -> list:
                 return False
         return True
 
-    def handle_params(n) -> set:
-        """parameters of helper n that receive a handle at some call site inside the reader"""
-        h = helpers[n]
-        prms = h.params[1:] if h.kind in ("method", "classmethod") and h.params else h.params
-        out = set()
+    memo: dict = {}
+
+    def param_info(n, depth=0):
+        """(parameters of n that receive a handle at some call site inside the reader, {parameter: roles all call sites agree on})"""
+        if n in memo:
+            return memo[n]
+        memo[n] = (set(), {})  # recursion guard
+        fn = cands[n]
+        prms = _own_params(fn)
+        handles, external, sites = set(), False, []
         for u in users[n]:
             if id(u.node) not in own:
+                external = True
                 continue
-            t_u = tainted_names(u)
             for _r, call in calls_of(u, n):
                 if call is None:
+                    external = True
+                else:
+                    sites.append((u, call))
+        per_site = []
+        for u, call in sites:
+            u_handles, u_roles = param_info(u.name, depth + 1) if (depth < 3 and cands.get(u.name) is not None and cands[u.name].node is u.node) else (set(), {})
+            t_u = tainted_names(u, u_handles)
+            roots_u = root_names(u, t_u)
+            al_u = Alias(u.node)
+            bound = dict(list(zip(prms, call.args)) + [(k.arg, k.value) for k in call.keywords if k.arg in prms])
+            site_roles = {}
+            for prm, a in bound.items():
+                if isinstance(a, ast.Starred):
                     continue
-                for prm, a in list(zip(prms, call.args)) + [(k.arg, k.value) for k in call.keywords]:
-                    if prm in prms and handle_expr(a, t_u):
-                        out.add(prm)
-        return out
+                if handle_expr(a, t_u):
+                    handles.add(prm)
+                ax = al_u.x(a)
+                rs = set()
+                if denotes_project_group(ax, roots_u, u_roles):
+                    rs.add("project")
+                if denotes_kind_selector(ax, u, u_roles):
+                    rs.add("kind")
+                site_roles[prm] = rs
+            per_site.append(site_roles)
+        roles = {}
+        if per_site and not external:
+            stable = set(prms) - _rebound(fn.node)
+            for prm in stable:
+                common = set.intersection(*[sr.get(prm, set()) for sr in per_site])
+                if common:
+                    roles[prm] = common
+        memo[n] = (handles, roles)
+        return memo[n]
 
     units = []
     for name, fn in cands.items():
+        handles, roles = param_info(name)
         if name in helpers:
             us = users[name]
-            if us and all(id(u.node) in own and not refs(ctx.view(u).node, name) for u in us):
+            if us and all(id(u.node) in own and not refs(unit_view(u).node, name) for u in us):
                 continue  # expanded into every caller: judged there
-            units.append((name, ctx.view(fn), call_sites_guarded(name), handle_params(name)))
+            units.append((name, unit_view(fn), call_sites_guarded(name), handles, roles))
         else:
-            units.append((name, ctx.view(fn), False, set()))
+            units.append((name, unit_view(fn), False, handles, roles))
     ctx.cache["c19.units"] = units
     return units
 
